@@ -22,6 +22,71 @@ type Target struct {
 	ViaAug bool // some node on the path was grafted by an augment (CopySteps marks)
 }
 
+// WithoutChoiceSteps spells the target's path without the steps that name a choice or a case: a data path, which
+// is not a schema path (no node has the node below the choice as its child). ok is false when the path runs through
+// no choice or ends in one.
+func WithoutChoiceSteps(trees map[string]*yref.Tree, tg Target) (path string, ok bool) {
+	t := trees[tg.Module]
+	if t == nil || t.Root == nil {
+		return "", false
+	}
+	x := t.Root
+	var keep []string
+	for _, st := range strings.Split(strings.TrimPrefix(tg.Path, "/"), "/") {
+		name := st
+		if i := strings.IndexByte(st, ':'); i >= 0 {
+			name = st[i+1:]
+		}
+		var nx *yref.XNode
+		switch {
+		case name == "input" && x.Input != nil:
+			nx = x.Input
+		case name == "output" && x.Output != nil:
+			nx = x.Output
+		default:
+			nx = x.Children[name]
+		}
+		if nx == nil {
+			return "", false
+		}
+		if nx.Kind == ymodel.KChoice || nx.Kind == ymodel.KCase {
+			if len(keep) == 0 {
+				// the first step selects the tree (by its prefix): it has to stay
+				return "", false
+			}
+			ok = true
+		} else {
+			keep = append(keep, st)
+		}
+		x = nx
+	}
+	if !ok || len(keep) == 0 || x.Kind == ymodel.KChoice || x.Kind == ymodel.KCase {
+		// (a path that ends in a choice or case would shrink to the path of an existing node)
+		return "", false
+	}
+	// a grouping used twice puts equal names in several places: the shortened path must name nothing
+	y := t.Root
+	for _, st := range keep {
+		name := st
+		if i := strings.IndexByte(st, ':'); i >= 0 {
+			name = st[i+1:]
+		}
+		switch {
+		case y == nil:
+		case name == "input" && y.Input != nil:
+			y = y.Input
+		case name == "output" && y.Output != nil:
+			y = y.Output
+		default:
+			y = y.Children[name]
+		}
+	}
+	if y != nil {
+		return "", false
+	}
+	return "/" + strings.Join(keep, "/"), true
+}
+
 func prefixFor(set *ymodel.Set, from *ymodel.Module, ns string) (string, bool) {
 	owner := set.Owner(from)
 	if owner != nil && owner.Name == ns {
